@@ -62,3 +62,21 @@ Definition check_staggered (plans : list (list behav)) (k : kind) (T : nat) (ds 
   let e1 := snd (async k (init (map plan_of plans))) in
   let '(o, e2) := wait_timed false k T ds e1 in
   ocls_eqb (cls o) c && pst_eqb (st e2) s.
+
+(* the synchronous wrappers reset() / step() / call(): X_async, then X_wait() without timeout if the first succeeded *)
+Inductive xop := XOp (o : op) | XSync (k : kind).
+Definition step_x (v : variant) (e : env) (x : xop) : outcome * env :=
+  match x with
+  | XOp o => step_gen v e o
+  | XSync k => let '(o1, e1) := async k e in
+               match o1 with Ok => wait k false e1 | _ => (o1, e1) end
+  end.
+Fixpoint check_trace_x (v : variant) (e : env) (ops : list xop) (obs : list obs1) : bool :=
+  match ops, obs with
+  | [], [] => true
+  | o :: ops', ob :: obs' =>
+      let '(r, e') := step_x v e o in check_one r e' ob && check_trace_x v e' ops' obs'
+  | _, _ => false
+  end.
+Definition check_run_x (v : variant) (plans : list (list behav)) (ops : list xop) (obs : list obs1) : bool :=
+  check_trace_x v (init (map plan_of plans)) ops obs.
